@@ -96,7 +96,7 @@ class Session:
         fmt = lambda evs: ",".join(e if isinstance(e, str) else "W:" + sym_text(list(e[1])) for e in evs)  # noqa: E731
         pos = 0
         for r, sy in zip(rc, sc):
-            active = not sess.dead and sess.helper._transport is not None
+            active = not sess.dead and noisesim.priv(sess.helper, "_transport") is not None
             evs = sess.op("data", r)
             pos += len(r)
             if active:
